@@ -106,13 +106,13 @@ type c15World struct {
 }
 
 type c15Trace struct {
-	r       *Run
-	w       *c15World // primary
-	sh      *c15World // shadow: same ops, MaxIterationsPerBlock = unlimited
-	shadowOK bool     // still comparable
-	lines   []string  // replay lines of this trace
-	kinds   []string  // op-kind/outcome sequence (class key)
-	accepted bool
+	r         *Run
+	w         *c15World // primary
+	sh        *c15World // shadow: same ops, MaxIterationsPerBlock = unlimited
+	shadowOK  bool      // still comparable
+	lines     []string  // replay lines of this trace
+	kinds     []string  // op-kind/outcome sequence (class key)
+	accepted  bool
 	lastLocks string
 	// facts about the trace used to name what fails
 	everUnsorted   bool
@@ -370,14 +370,18 @@ func (w *c15World) apply(fl []string, unlimited bool) (class string, err error) 
 		if err := p.ValidateBasic(); err != nil {
 			return "invalid", err
 		}
-		err := f.Try(func(ctx sdk.Context) error { return streamer.HandleTerminateStreamProposal(ctx, f.App.StreamerKeeper, p) })
+		err := f.Try(func(ctx sdk.Context) error {
+			return streamer.HandleTerminateStreamProposal(ctx, f.App.StreamerKeeper, p)
+		})
 		return c15Class(err), err
 	case "replace":
 		p := &streamertypes.ReplaceStreamDistributionProposal{Title: "t", Description: "d", StreamId: uint64(n(1)), Records: c15Recs(fl[2])}
 		if err := p.ValidateBasic(); err != nil {
 			return "invalid", err
 		}
-		err := f.Try(func(ctx sdk.Context) error { return streamer.HandleReplaceStreamDistributionProposal(ctx, f.App.StreamerKeeper, p) })
+		err := f.Try(func(ctx sdk.Context) error {
+			return streamer.HandleReplaceStreamDistributionProposal(ctx, f.App.StreamerKeeper, p)
+		})
 		return c15Class(err), err
 	}
 	panic("unknown op line: " + strings.Join(fl, " "))
@@ -860,15 +864,15 @@ func (t *c15Trace) monitors(fl []string, class string, pre c15Snap, preLocks []l
 // generator
 
 type c15Gen struct {
-	t       *c15Trace
-	g       *Rng
-	nGauges int
-	perp    []int // ids of perpetual gauges (valid stream targets)
-	nonperp []int
+	t        *c15Trace
+	g        *Rng
+	nGauges  int
+	perp     []int // ids of perpetual gauges (valid stream targets)
+	nonperp  []int
 	nStreams int
-	nRoll   int
-	lockIDs []uint64
-	inBlock bool
+	nRoll    int
+	lockIDs  []uint64
+	inBlock  bool
 }
 
 func (x *c15Gen) amount() string {
@@ -1362,6 +1366,7 @@ func TestC15(t *testing.T) {
 	defer r.Close()
 	if rl := ReplayLines(); rl != nil {
 		var tr *c15Trace
+		halted := false // the trace's chain halted: skip to the next trace
 		for _, l := range rl {
 			fl := strings.Fields(l)
 			if fl[0] == "reset" {
@@ -1370,6 +1375,10 @@ func TestC15(t *testing.T) {
 				}
 				mi, _ := strconv.ParseUint(fl[2], 10, 64)
 				tr = c15Start(r, mi)
+				halted = false
+				continue
+			}
+			if halted {
 				continue
 			}
 			if tr == nil {
@@ -1378,7 +1387,7 @@ func TestC15(t *testing.T) {
 			// absolute times in a replay file are relative to the recorded reset time; the fixture is
 			// deterministic, so they coincide
 			if !tr.exec(l) {
-				break
+				halted = true
 			}
 		}
 		if tr != nil {
